@@ -28,8 +28,13 @@ def gen(ctx):
         ex3 = list(G.exhaustive(3))
         gs.extend(ctx.rng.sample(ex3, 90))
         nrand = 160
-    for _ in range(nrand):
-        gs.append(G.random_graph(ctx.rng, 8 if ctx.tier == 'quick' else 10))
+    for j_ in range(nrand):
+        g_ = G.random_graph(ctx.rng, 8 if ctx.tier == 'quick' else 10)
+        if j_ % 4 == 0 and g_['n'] >= 3:
+            # the taxonomy continues in an extension: the upper synsets are the base lexicon's, the lower ones (and
+            # every relation touching them) the extension's; the Wordnet selects both
+            g_['split'] = ctx.rng.randint(1, g_['n'] - 1)
+        gs.append(g_)
     # drop graphs whose path enumeration explodes (dense cycles on many nodes)
     gs = [g for g in gs if len(g['edges']) <= 22]
     return gs
@@ -54,7 +59,13 @@ def compare(ctx, g, impl, model):
             for f in ('common', 'lowest'):
                 if pi[f] != pm[f]:
                     ctx.disagree(g, pi[f], pm[f], f'{key}.{f}({a},{b})')
-            if pi['sp'] != pm['sp']:
+            if g.get('split'):
+                # which of several equally short paths is returned depends on the order in which a synset's relations
+                # are stored; with the relations of one synset spread over a base and an extension that order is not the
+                # document's: compare the length here, the oracle judges that the path is a path
+                if (pi['sp'] == 'error') != (pm['sp'] == 'error') or (pi['sp'] != 'error' and len(pi['sp']) != len(pm['sp'])):
+                    ctx.disagree(g, pi['sp'], pm['sp'], f'{key}.shortest_path({a},{b}).length')
+            elif pi['sp'] != pm['sp']:
                 ctx.disagree(g, pi['sp'], pm['sp'], f'{key}.shortest_path({a},{b})')
     if impl['closure'] and [sorted(c) for c in impl['closure']] != [sorted(c) if c != 'fuel' else c for c in model['closure']]:
         ctx.disagree(g, impl['closure'], model['closure'], 'closure')
